@@ -148,8 +148,8 @@ def tokenize(text):
                 raise Unspec("trailing backslash")
             if cur is not None:
                 raise Unspec("escape in the middle of a token")
-            if text[i + 1] == " " or text[i + 1] == "\\":
-                raise Unspec("escaped blank / backslash")
+            if text[i + 1] == "\\":
+                raise Unspec("escaped backslash")
             nxt = text[i + 2] if i + 2 < n else " "
             if nxt != " " and nxt not in SPECIAL_1:
                 raise Unspec("escape glued to other characters")
